@@ -40,7 +40,7 @@ ASSUMPTIONS = ["the model's own mass() is the reference for cell masses (C09/C12
                "copula-driven SDE coupling are not",
                "cell boundaries are the grid's own middle() (arithmetic, or equal-probability for probability-step grids)"]
 TIERS = {
-    "quick": {"worlds": 260, "wall": 520, "shrink_budget": 40,
+    "quick": {"worlds": 2500, "wall": 520, "shrink_budget": 40,
               "required_probes": ["c03.level_transition", "c03.odd_increment_probed", "c03.even_increment_seen",
                                   "c03.telescoping_checked", "c03.adaptive_run", "c03.sde_run", "c03.nd_run",
                                   "c03.nd_telescoping_checked", "c03.nd_odd_increment_probed", "c03.nd_odd_coordinate_seen"]},
